@@ -4,7 +4,14 @@
    of the generated constants, so it keeps its meaning when a translated formula
    or a model proof breaks; tools/verif.py then compares the implementation with
    this machine to search for a concrete failing input.  Ops it does not cover
-   return None (the case is skipped by the search). *)
+   return None (the case is skipped by the search), and so do histories outside
+   the documented domain: 2^64 or more input bytes, a subtree longer than its
+   offset allows, finalize at a non-zero offset, an offset that is not a u64, a
+   literal chaining value that is not 32 bytes, positions beyond 2^64-1,
+   Digest::new outside the hash mode, KeyInit::new outside the keyed mode.
+   Proofs/MachineRefinesP.v (pinned in Props/MachineRefines.v) proves that every
+   history this machine accepts is reproduced, observation for observation and
+   without a panic, by the implementation machine Machine.run_case. *)
 From Coq Require Import NArith ZArith List Bool.
 From V Require Import Base.Res Base.Word Spec.Compress Spec.Tree Spec.Blake3 Model.RsXof Model.RsIo Model.Machine.
 Import ListNotations.
@@ -30,14 +37,30 @@ Definition max_position : N := 2 ^ 64 - 1.
 
 (* a subtree that starts at chunk index off (off > 0) holds at most lowbit(off) chunks *)
 Fixpoint lowbit_pos (p : positive) : N := match p with xO q => 2 * lowbit_pos q | _ => 1 end.
+(* the whole input (off = 0) is shorter than 2^64 bytes (the domain of BLAKE3) *)
 Definition room (off total : N) : bool :=
-  match off with 0 => true | Npos p => total <=? 1024 * lowbit_pos p end.
+  match off with 0 => total <? 2 ^ 64 | Npos p => total <=? 1024 * lowbit_pos p end.
+
+(* a chaining-value argument: a literal is a [u8; 32] *)
+Definition sval (vs : list (list N)) (v : vref) : option (list N) :=
+  match v with
+  | VLit c => if Nat.eqb (length c) 32 then Some c else None
+  | VRef k => snth vs k
+  end.
 
 Definition sstep (m : mmode) (st : sstate) (o : op) : option (sstate * list obs) :=
   let upd i (f : sinst -> sinst) := mkSS (set_nth (ss_h st) i (match snth (ss_h st) i with Some x => f x | None => mkSI [] 0 end))
                                         (ss_r st) (ss_v st) in
   match o with
-  | OpNew | OpTDigestNew | OpTKeyInit => Some (mkSS (ss_h st ++ [mkSI [] 0]) (ss_r st) (ss_v st), [])
+  | OpNew => Some (mkSS (ss_h st ++ [mkSI [] 0]) (ss_r st) (ss_v st), [])
+  (* Digest::new / Default is the plain hash mode and KeyInit::new the keyed mode, whatever the
+     mode of the case: the one-mode-per-case abstraction covers them only in that mode *)
+  | OpTDigestNew => match m with
+                    | MHash => Some (mkSS (ss_h st ++ [mkSI [] 0]) (ss_r st) (ss_v st), [])
+                    | _ => None end
+  | OpTKeyInit => match m with
+                  | MKeyed _ => Some (mkSS (ss_h st ++ [mkSI [] 0]) (ss_r st) (ss_v st), [])
+                  | _ => None end
   | OpUpdate i b | OpTUpdate i b =>
       match snth (ss_h st) i with
       | Some x0 => if room (si_off x0) (len (si_bytes x0) + len b)
@@ -66,7 +89,7 @@ Definition sstep (m : mmode) (st : sstate) (o : op) : option (sstate * list obs)
   | OpReset i | OpTReset i => match snth (ss_h st) i with Some _ => Some (upd i (fun _ => mkSI [] 0), []) | None => None end
   | OpSetOffset i off =>
       match snth (ss_h st) i with
-      | Some x => if (len (si_bytes x) =? 0) && (off mod 1024 =? 0) then Some (upd i (fun _ => mkSI [] (off / 1024)), []) else None
+      | Some x => if (len (si_bytes x) =? 0) && (off mod 1024 =? 0) && (off <? 2 ^ 64) (* a u64 *) then Some (upd i (fun _ => mkSI [] (off / 1024)), []) else None
       | None => None end
   | OpNonRoot i =>
       match snth (ss_h st) i with
@@ -75,28 +98,27 @@ Definition sstep (m : mmode) (st : sstate) (o : op) : option (sstate * list obs)
                        Some (mkSS (ss_h st) (ss_r st) (ss_v st ++ [cv]), [ObHex cv])
                   else None
       | None => None end
-  | OpOneShot b => Some (st, [ObHex (stream spec_c64 (sub_out m 0 b) 0 32)])
+  | OpOneShot b => if len b <? 2 ^ 64 then Some (st, [ObHex (stream spec_c64 (sub_out m 0 b) 0 32)]) else None
   | OpMergeNonRoot l r =>
-      match (match l with VLit c => Some c | VRef k => snth (ss_v st) k end),
-            (match r with VLit c => Some c | VRef k => snth (ss_v st) k end) with
+      match sval (ss_v st) l, sval (ss_v st) r with
       | Some lv, Some rv =>
           let cv := chaining_value spec_c8 (parent_output (mode_key (spec_mode m)) (mode_flags (spec_mode m)) lv rv) in
           Some (mkSS (ss_h st) (ss_r st) (ss_v st ++ [cv]), [ObHex cv])
       | _, _ => None end
   | OpMergeRoot l r =>
-      match (match l with VLit c => Some c | VRef k => snth (ss_v st) k end),
-            (match r with VLit c => Some c | VRef k => snth (ss_v st) k end) with
+      match sval (ss_v st) l, sval (ss_v st) r with
       | Some lv, Some rv =>
           Some (st, [ObHex (stream spec_c64 (parent_output (mode_key (spec_mode m)) (mode_flags (spec_mode m)) lv rv) 0 32)])
       | _, _ => None end
   | OpMergeXof l r =>
-      match (match l with VLit c => Some c | VRef k => snth (ss_v st) k end),
-            (match r with VLit c => Some c | VRef k => snth (ss_v st) k end) with
+      match sval (ss_v st) l, sval (ss_v st) r with
       | Some lv, Some rv =>
           Some (mkSS (ss_h st) (ss_r st ++ [mkSR (parent_output (mode_key (spec_mode m)) (mode_flags (spec_mode m)) lv rv) 0]) (ss_v st), [])
       | _, _ => None end
   | OpContextKey ctx =>
-      let ck := b3_hash_mode DeriveKeyContext ctx in Some (mkSS (ss_h st) (ss_r st) (ss_v st ++ [ck]), [ObHex ck])
+      if len ctx <? 2 ^ 64
+      then let ck := b3_hash_mode DeriveKeyContext ctx in Some (mkSS (ss_h st) (ss_r st) (ss_v st ++ [ck]), [ObHex ck])
+      else None
   | OpReaderNew i =>
       match snth (ss_h st) i with
       | Some x => if si_off x =? 0 then Some (mkSS (ss_h st) (ss_r st ++ [mkSR (sub_out m 0 (si_bytes x)) 0]) (ss_v st), []) else None
